@@ -4,6 +4,7 @@ package checks
 
 import (
 	"fmt"
+	"strings"
 	"testing"
 	"time"
 
@@ -66,7 +67,7 @@ func TestC03Linearizable(t *testing.T) {
 	}
 	rapid.Check(t, func(t *rapid.T) {
 		cfg := cGenCfg{RootPlus: true, DataOps: true, NameOps: true, DirRename: true, BigTrunc: rapid.IntRange(0, 3).Draw(t, "bigtrunc") == 0,
-			Focus: rapid.Bool().Draw(t, "focus"), FocusDir: rapid.IntRange(0, 2).Draw(t, "focusdir")}
+			Focus: rapid.Bool().Draw(t, "focus"), FocusDir: rapid.IntRange(0, 2).Draw(t, "focusdir"), HandleOps: rapid.Bool().Draw(t, "handleops")}
 		cc := genConcCase(t, cfg, 15)
 		// half of the cases on a tiny data region, where freed blocks are handed out again at once
 		size := uint64(9000)
@@ -109,6 +110,14 @@ func TestC03Linearizable(t *testing.T) {
 		}
 		if cc.YieldSeed != 0 {
 			St.Class("history_with_injected_yields")
+		}
+		for _, o := range run.Ops {
+			if in := o.Input.(cOp); in.H != "" && o.ClientId < len(cc.Progs) {
+				St.ClassN("requests_through_the_handle_of_a_file_the_programs_created", 1)
+				if !o.Output.(cRes).OK {
+					St.ClassN("requests_through_the_handle_of_a_file_removed_or_replaced_by_then", 1)
+				}
+			}
 		}
 		if run.Paused {
 			St.Class("history_with_a_client_held_at_a_lock_or_commit_point")
@@ -160,7 +169,7 @@ func TestC03Windows(t *testing.T) {
 		}
 		defer func() { w.S.Stop() }()
 		w.FullDisk = fulldisk
-		cfg := cGenCfg{RootPlus: true, DataOps: true, NameOps: true, DirRename: true, Focus: true, FocusDir: rapid.IntRange(0, 2).Draw(t, "dir")}
+		cfg := cGenCfg{RootPlus: true, DataOps: true, NameOps: true, DirRename: true, Focus: true, FocusDir: rapid.IntRange(0, 2).Draw(t, "dir"), HandleOps: rapid.Bool().Draw(t, "handleops")}
 		var tag uint32
 		// prefix: executed sequentially, part of the history
 		var pre []cOp
@@ -256,7 +265,9 @@ type enumCase struct {
 	// HalfFreed: the lowest free inode number belongs to a removed big file whose blocks the shrinker had not
 	// finished freeing when the server was stopped: the next allocation finds it and has to finish the job first
 	HalfFreed bool
-	Pre       []cOp
+	// HFile: the operations with kinds ending in h go through the handle of the file D0/a, which holds two blocks of data
+	HFile bool
+	Pre   []cOp
 	Op0       cOp
 	Prog1     []cOp
 	Hook      int
@@ -339,6 +350,42 @@ func enumSpace() []enumCase {
 			}
 		}
 	}
+	// a file reached through its handle while its name is removed, replaced or moved
+	wh := func(off uint64, n int, tag uint32) cOp {
+		return cOp{Kind: "writeh", Off: off, Data: string(patternData(tag, uint64(n))), Stable: 2}
+	}
+	hMut := []cOp{wh(0, 100, 21), wh(4090, 20, 22), {Kind: "setattrh", Size: 0}, {Kind: "setattrh", Size: 5000},
+		{Kind: "remove", Dir: D, Name: "a"}, {Kind: "rename", Dir: D, Name: "a", Dir2: D, Name2: "b"}, {Kind: "rename", Dir: D, Name: "b", Dir2: D, Name2: "a"},
+		{Kind: "create", Dir: D, Name: "a"}}
+	hReads := []cOp{{Kind: "readh", Off: 0, Cnt: 8192}, {Kind: "getattrh"}, {Kind: "lookup", Dir: D, Name: "a"}}
+	for pre := 0; pre < 2; pre++ {
+		p := []cOp{{Kind: "create", Dir: D, Name: "a"}}
+		if pre == 1 {
+			p = append(p, cOp{Kind: "create", Dir: D, Name: "b"})
+		}
+		for _, op0 := range append(append([]cOp{}, hMut...), hReads...) {
+			for _, a := range hMut {
+				progs := [][]cOp{{a}}
+				for _, b := range hMut {
+					progs = append(progs, []cOp{a, b})
+				}
+				for _, prog := range progs {
+					// at least one side uses the handle and at least one side changes a name
+					usesH, names := strings.HasSuffix(op0.Kind, "h"), !strings.HasSuffix(op0.Kind, "h") && op0.Kind != "lookup"
+					for _, o := range prog {
+						usesH = usesH || strings.HasSuffix(o.Kind, "h")
+						names = names || !strings.HasSuffix(o.Kind, "h")
+					}
+					if !usesH || !names {
+						continue
+					}
+					for hook := 0; hook < 5; hook++ {
+						cases = append(cases, enumCase{HFile: true, Pre: p, Op0: op0, Prog1: prog, Hook: hook})
+					}
+				}
+			}
+		}
+	}
 	return cases
 }
 
@@ -397,6 +444,14 @@ func TestC03Enum(t *testing.T) {
 			ops = append(ops, porcupine.Operation{ClientId: 9, Input: o, Call: clock + 1, Output: res, Return: clock + 2})
 			clock += 2
 		}
+		hfile := ""
+		if ec.HFile {
+			hfile = ops[0].Output.(cRes).Handle
+			o := cOp{Kind: "writeh", H: hfile, Off: 0, Data: string(patternData(31, 8000)), Stable: 2}
+			ops = append(ops, porcupine.Operation{ClientId: 9, Input: o, Call: clock + 1, Output: w.exec(api, o), Return: clock + 2})
+			clock += 2
+			St.Class("enumerated_cases_with_a_file_used_through_its_handle_while_its_name_changes")
+		}
 		init := w.Init
 		if ec.FullDisk {
 			if err := fillWorld(w, 0); err != nil {
@@ -410,6 +465,12 @@ func TestC03Enum(t *testing.T) {
 		prog1 := append([]cOp{}, ec.Prog1...)
 		for k := range prog1 {
 			prog1[k].MayFail = ec.FullDisk
+			if strings.HasSuffix(prog1[k].Kind, "h") {
+				prog1[k].H = hfile
+			}
+		}
+		if strings.HasSuffix(op0.Kind, "h") {
+			op0.H = hfile
 		}
 		progs := [][]cOp{{op0}, prog1}
 		pause := &pauseSpec{Client: 0, Hook: ec.Hook, MaxWait: 20 * time.Millisecond}
